@@ -898,6 +898,10 @@ func e1RunAll(c *Ctx, specs []e1Spec, workers int) []*e1Result {
 			c.Capped("no go statement was found in the instrumented file: the concurrent tasks are started elsewhere and are not under the scheduler")
 		}
 	}
+	uncontrolled := false
+	if info, err := os.ReadFile(exe + ".info"); err == nil && !strings.Contains(string(info), "uncontrolled=0") {
+		uncontrolled = true
+	}
 	results := make([]*e1Result, len(specs))
 	var wg sync.WaitGroup
 	sem := make(chan struct{}, workers)
@@ -934,6 +938,12 @@ func e1RunAll(c *Ctx, specs []e1Spec, workers int) []*e1Result {
 				tail := stderr.String()
 				if len(tail) > 1500 {
 					tail = tail[len(tail)-1500:]
+				}
+				if uncontrolled && (strings.Contains(stderr.String(), "all goroutines are asleep") || strings.Contains(stderr.String(), "fatal error")) {
+					// the tree synchronises through constructs the scheduler does not own (channels,
+					// timers): a controlled thread blocked for real. Not a verdict of any kind.
+					results[i] = &e1Result{Spec: sp, Capped: "uncontrolled synchronisation in the code under test (channel / select / timer): the exploration of this scenario was abandoned", Outcomes: map[string]int{}}
+					return
 				}
 				results[i] = &e1Result{Spec: sp, HarnessErr: fmt.Sprintf("worker failed (%v): %s %s", werr, trunc(stdout.String(), 300), tail), Outcomes: map[string]int{}}
 				return
